@@ -111,8 +111,15 @@ def mutate(rec):
         return None
     cand = [k for k in range(len(s['d'])) if not s['m'][k] and s['d'][k] not in ('nan', 'inf', '-inf') and Fraction(s['d'][k]) != 0]
     if cand and not (rec['op'] == 'arith' and not rec['in'].get('values', True)):
-        k = cand[len(cand) // 2]
+        # the entry of largest magnitude: a change of 1e-6 relative is then far above the absolute floor (1e-30 of the largest
+        # entry) that the comparison grants to tiny entries of a spectrum with a huge dynamic range
+        k = max(cand, key=lambda j: abs(Fraction(s['d'][j])))
         s['d'][k] = rat(Fraction(s['d'][k]) * Fraction(1000001, 1000000))
+        return rec
+    if rec['op'] == 'arith':
+        # values are not compared for this record (pow / floordiv of spectra) and the specification lets an operator mask
+        # more than the union: a flipped mask bit may be legitimate.  The folding status is always demanded: corrupt that.
+        s['f'] = not s['f']
         return rec
     if len(s['m']) > 2:
         k = len(s['m']) // 2
